@@ -58,6 +58,12 @@ def main():
         ev["violations"] = ev.get("violations", 0) + sum(1 for l in eb_lines if l.startswith("VIOLATION"))
     if not a.no_evidence and only is None:
         p = report.write_evidence(prop, ev)
+        if tier == "thorough":
+            # keep a copy of the deepest run next to the (quick) evidence that every run rewrites
+            import shutil
+            d = os.path.join(os.path.dirname(p), "thorough")
+            os.makedirs(d, exist_ok=True)
+            shutil.copy(p, os.path.join(d, prop + ".json"))
         print("evidence: %s  wall=%.1fs" % (p, ev["wall_s"]))
     sys.exit(code)
 
